@@ -1374,7 +1374,7 @@ class LangServer:
         # Skip update and remove objects if file is deleted
         if did_close and (not os.path.isfile(filepath)):
             # Remove old objects from tree
-            file_obj = self.workspace.get(filepath)
+            file_obj = self.workspace.pop(filepath, None)
             if file_obj is not None:
                 ast_old = file_obj.ast
                 if ast_old is not None:
